@@ -256,10 +256,13 @@ def r4_simple_laws(ctx):
     ctx.check(ok, sf.qual, "capacity = argument or detector characteristic, negative refused, result stored in pixel" if ok else "full-well wiring changed", where=sf, node=c[0] if c else sf.node)
     aq = ctx.func("pyxel.models.charge_generation.photoelectrons:apply_qe")
     a, q, b = aq.params[:3]
-    defs = {((norm(t), pol) for t, pol in enclosing_tests(s_)).__next__() if enclosing_tests(s_) else None: v for s_, v in local_defs(aq, "output")}
-    bino = [v for k, v in defs.items() if k == (b, True)]
-    prod = [v for k, v in defs.items() if k == (b, False)]
-    ok = len(bino) == 1 and len(prod) == 1
+    from sa.paths import enumerate_paths
+
+    # per path: what is returned when sampling is on / off (intermediates and early returns do not matter)
+    rp = [q_ for q_ in enumerate_paths(aq.node.body) if q_.exit == "return" and q_.value is not None]
+    bino = [q_.value for q_ in rp if q_.holds(b) is True]
+    prod = [q_.value for q_ in rp if q_.holds(b) is False]
+    ok = len(bino) == 1 and len(prod) == 1 and len(rp) == 2
     if ok:
         bc = [c_ for c_ in ast.walk(bino[0]) if isinstance(c_, ast.Call) and call_name(c_).endswith("binomial")]
         ok = len(bc) == 1 and kw(bc[0], "n") is not None and a in names_in(kw(bc[0], "n")) and dotted(kw(bc[0], "p")) == q
